@@ -8,13 +8,18 @@
 //! Op lines (one dataset per case, columns `id: Int64` (0, 1, 2, … in write order) and `t: Utf8`; text form in c23_text.rs):
 //!
 //! ```text
-//! cfg lower=<0|1> fold=<0|1> maxlen=<nat|none> pos=<0|1>     tokenizer of the case (simple, no stemming, no stop words)
+//! cfg lower=<0|1> fold=<0|1> maxlen=<nat|none> pos=<0|1> [parts=<merge|split>]
+//!                                   tokenizer of the case (simple, no stemming, no stop words); `parts=split` runs the case in a
+//!                                   child process with LANCE_FTS_TARGET_SIZE=0 (the merger keeps every partition apart: one
+//!                                   partition per build / optimize round, of unequal sizes); default merge (one partition)
 //! tok <text>                        InvertedIndexParams::build().token_stream_for_doc(text): positions and token texts
 //! create <frags>                    Dataset::write(Create) of the first fragment, Append of the others
 //! append <frags>                    Dataset::write(Append), one new fragment per group
 //! index                             create_index(["t"], Inverted, "t_idx", params of cfg, replace = true)
 //! optimize                          optimize_indices(default)
 //! delete <natlist>                  Dataset::delete("id IN (…)")
+//! compact                           compact_files(target 2^20 rows, materialize_deletions, threshold 0): fragments rewritten, the
+//!                                   inverted index REMAPPED (deleted rows dropped, positions kept); at most once per case
 //! q <query>                         Scanner::full_text_search(query) without limit; the SET of returned ids
 //! top <k> <query>                   the same with FullTextSearchQuery::limit(k); the number of returned rows
 //! ```
@@ -22,7 +27,8 @@
 //!         | `bo` nmust nshould nmustnot query…   (BooleanQuery; the sub-queries follow in that order)
 //!
 //! Output: `tok`: `ok <pos>:<text>;…` | `ok -`; `create`/`append`/`delete`: `ok n=<count_rows>`; `index`/`optimize`:
-//! `ok docs=<num_docs> toks=<num_tokens> unidx=<num_unindexed_fragments>` (index statistics; `ok none` without index);
+//! `ok docs=<num_docs> toks=<num_tokens> unidx=<num_unindexed_fragments>` (index statistics summed over the partitions; `ok none`
+//! without index); `compact`: `ok docs=<num_docs> toks=<num_tokens>`;
 //! `q`: `ok <sorted ids>`; `top`: `ok n=<rows>`; `err <kind>` / `err parse` / `panic`.
 //!
 //! Before the first `index` there is no tokenizer configuration: lance's flat path splits with the bare simple tokenizer
@@ -39,6 +45,7 @@ use std::collections::{BTreeMap, BTreeSet};
 use arrow_array::cast::AsArray;
 use arrow_array::types::{Float32Type, Int64Type};
 use hcommon::*;
+use lance::dataset::optimize::{compact_files, CompactionOptions};
 use lance::Dataset;
 use lance_index::optimize::OptimizeOptions;
 use lance_index::scalar::inverted::query::{BooleanQuery, FtsQuery, MatchQuery, Occur, Operator, PhraseQuery};
@@ -209,11 +216,123 @@ struct St {
     index_docs: Vec<i64>,
     /// `num_docs` of the index statistics (documents of a batch without any token are not written)
     index_num_docs: u64,
+    /// the case keeps the partitions apart (child process)
+    split: bool,
+    compacted: bool,
 }
 
 struct C23 {
     kit: Kit,
     debug: bool,
+    /// this process runs with LANCE_FTS_TARGET_SIZE=0 (partitions kept apart) and serves `parts=split` cases
+    is_child: bool,
+    child: Option<ChildProc>,
+}
+
+/// `parts=split` cases are executed by a child process of the same binary: the partition target size is read once per
+/// process (LazyLock), so the two layouts cannot be mixed in one process.
+/// Protocol: parent sends the case lines and `END`; child answers `O\t<output>` per line, `F\t<line>\t<key|->\t<what>`,
+/// `T\t<tag>`, `N\t<0|1>`, then `END`.
+struct ChildProc {
+    proc: std::process::Child,
+    stdin: std::process::ChildStdin,
+    stdout: std::io::BufReader<std::process::ChildStdout>,
+}
+
+impl Drop for ChildProc {
+    fn drop(&mut self) {
+        let _ = self.proc.kill();
+        let _ = self.proc.wait();
+    }
+}
+
+fn spawn_child() -> Option<ChildProc> {
+    use std::process::{Command, Stdio};
+    let exe = std::env::current_exe().ok()?;
+    let mut proc = Command::new(exe)
+        .arg("--child")
+        .env("LANCE_FTS_TARGET_SIZE", "0")
+        .env("LANCE_FTS_NUM_SHARDS", "1")
+        .stdin(Stdio::piped())
+        .stdout(Stdio::piped())
+        .stderr(Stdio::inherit())
+        .spawn()
+        .ok()?;
+    let stdin = proc.stdin.take()?;
+    let stdout = std::io::BufReader::new(proc.stdout.take()?);
+    Some(ChildProc { proc, stdin, stdout })
+}
+
+fn delegate(child: &mut ChildProc, lines: &[String]) -> Option<CaseResult> {
+    use std::io::{BufRead, Write};
+    for l in lines {
+        writeln!(child.stdin, "{l}").ok()?;
+    }
+    writeln!(child.stdin, "END").ok()?;
+    child.stdin.flush().ok()?;
+    let mut res = CaseResult::default();
+    loop {
+        let mut buf = String::new();
+        if child.stdout.read_line(&mut buf).ok()? == 0 {
+            return None;
+        }
+        let l = buf.trim_end_matches('\n');
+        if l == "END" {
+            break;
+        }
+        let mut it = l.splitn(2, '\t');
+        match (it.next()?, it.next().unwrap_or("")) {
+            ("O", o) => res.outputs.push(o.to_string()),
+            ("T", t) => res.tags.push(t.to_string()),
+            ("N", n) => res.nontrivial = n == "1",
+            ("F", f) => {
+                let mut p = f.splitn(3, '\t');
+                let line = p.next()?.parse().ok()?;
+                let key = p.next()?;
+                let what = p.next().unwrap_or("").to_string();
+                res.failures.push(OracleFailure { what, key: if key == "-" { None } else { Some(key.to_string()) }, line });
+            }
+            _ => return None,
+        }
+    }
+    (res.outputs.len() == lines.len()).then_some(res)
+}
+
+fn child_loop(mut p: C23) {
+    use std::io::{BufRead, Write};
+    std::panic::set_hook(Box::new(|_| {}));
+    let stdin = std::io::stdin();
+    let mut out = std::io::stdout();
+    let mut lines: Vec<String> = vec![];
+    for l in stdin.lock().lines() {
+        let Ok(l) = l else { break };
+        if l != "END" {
+            lines.push(l);
+            continue;
+        }
+        let res = match std::panic::catch_unwind(std::panic::AssertUnwindSafe(|| p.exec_case(&lines))) {
+            Ok(r) => r,
+            Err(_) => CaseResult {
+                outputs: lines.iter().map(|_| "panic".to_string()).collect(),
+                failures: vec![OracleFailure { what: "implementation panicked (split child)".into(), key: Some("panic".into()), line: 0 }],
+                tags: vec!["panic".into()],
+                nontrivial: true,
+            },
+        };
+        for o in &res.outputs {
+            let _ = writeln!(out, "O\t{o}");
+        }
+        for f in &res.failures {
+            let _ = writeln!(out, "F\t{}\t{}\t{}", f.line, f.key.as_deref().unwrap_or("-"), f.what.replace(['\t', '\n'], " "));
+        }
+        for t in &res.tags {
+            let _ = writeln!(out, "T\t{t}");
+        }
+        let _ = writeln!(out, "N\t{}", res.nontrivial as u8);
+        let _ = writeln!(out, "END");
+        let _ = out.flush();
+        lines.clear();
+    }
 }
 
 /// without an inverted index the flat path has no tokenizer configuration to consult: it splits with the bare simple
@@ -240,10 +359,17 @@ fn params_of(cfg: &Cfg) -> InvertedIndexParams {
         .with_position(cfg.pos)
 }
 
-fn parse_cfg(toks: &[&str]) -> Option<Cfg> {
-    if toks.len() != 4 {
-        return None;
-    }
+/// -> (cfg, split)
+fn parse_cfg(toks: &[&str]) -> Option<(Cfg, bool)> {
+    let split = match toks.len() {
+        4 => false,
+        5 => match toks[4] {
+            "parts=split" => true,
+            "parts=merge" => false,
+            _ => return None,
+        },
+        _ => return None,
+    };
     let b = |s: &str, k: &str| match s.strip_prefix(k)? {
         "0" => Some(false),
         "1" => Some(true),
@@ -254,7 +380,7 @@ fn parse_cfg(toks: &[&str]) -> Option<Cfg> {
         v if v.len() <= 4 && !v.is_empty() && v.bytes().all(|c| c.is_ascii_digit()) => Some(v.parse().ok()?),
         _ => return None,
     };
-    Some(Cfg { lower: b(toks[0], "lower=")?, fold: b(toks[1], "fold=")?, maxlen, pos: b(toks[3], "pos=")? })
+    Some((Cfg { lower: b(toks[0], "lower=")?, fold: b(toks[1], "fold=")?, maxlen, pos: b(toks[3], "pos=")? }, split))
 }
 
 fn err_line(e: &KitError) -> String {
@@ -304,15 +430,16 @@ impl C23 {
         self.kit.count_rows(st.ds.as_ref().unwrap(), None)
     }
 
-    fn stats_line(&self, st: &St) -> KitResult<(u64, String)> {
+    /// (num_docs, `docs=… toks=…`, ` unidx=…`) of the index statistics
+    fn stats_line(&self, st: &St) -> KitResult<(u64, String, String)> {
         let ds = st.ds.as_ref().unwrap();
         if !st.has_index {
-            return Ok((0, "ok none".into()));
+            return Ok((0, "ok none".into(), String::new()));
         }
         let s = self.kit.lance_call("index_statistics", ds.index_statistics(INDEX_NAME))?;
         let v: serde_json::Value = serde_json::from_str(&s).map_err(|e| KitError::other(e.to_string()))?;
         let sum = |k: &str| v["indices"].as_array().map(|a| a.iter().map(|i| i[k].as_u64().unwrap_or(0)).sum::<u64>()).unwrap_or(0);
-        Ok((sum("num_docs"), format!("ok docs={} toks={} unidx={}", sum("num_docs"), sum("num_tokens"), v["num_unindexed_fragments"].as_u64().unwrap_or(0))))
+        Ok((sum("num_docs"), format!("ok docs={} toks={}", sum("num_docs"), sum("num_tokens")), format!(" unidx={}", v["num_unindexed_fragments"].as_u64().unwrap_or(0))))
     }
 
     fn run_query(&self, ds: &Dataset, q: &Q, limit: Option<i64>) -> KitResult<Vec<(i64, Option<f32>)>> {
@@ -399,8 +526,9 @@ impl C23 {
         res.tags.push(format!("op:{op}"));
         match op {
             "cfg" => match parse_cfg(&toks[1..]) {
-                Some(c) if st.ds.is_none() => {
+                Some((c, split)) if st.ds.is_none() => {
                     st.cfg = c;
+                    st.split = split;
                     "ok".into()
                 }
                 _ => "err parse".into(),
@@ -454,7 +582,36 @@ impl C23 {
                             st.indexed_frags = (0..st.nfrags).collect();
                         }
                         match self.stats_line(st) {
-                            Ok((n, s)) => {
+                            Ok((n, s, u)) => {
+                                st.index_num_docs = n;
+                                s + &u
+                            }
+                            Err(e) => err_line(&e),
+                        }
+                    }
+                    Err(e) => err_line(&e),
+                }
+            }
+            "compact" if toks.len() == 1 && st.ds.is_some() && !st.compacted => {
+                let mut d = st.ds.clone().unwrap();
+                let opts = CompactionOptions {
+                    target_rows_per_fragment: 1 << 20,
+                    materialize_deletions: true,
+                    materialize_deletions_threshold: 0.0,
+                    num_threads: Some(1),
+                    ..Default::default()
+                };
+                match self.kit.lance_call("compact", compact_files(&mut d, opts, None)) {
+                    Ok(_) => {
+                        st.ds = Some(d);
+                        st.compacted = true;
+                        // bookkeeping for the score recomputation: the remap drops the deleted rows of the fragments that
+                        // are still in the manifest (a fragment with a deletion is always rewritten)
+                        let live: BTreeSet<usize> = st.rows.iter().filter(|r| !r.deleted).map(|r| r.frag).collect();
+                        let dropped: BTreeSet<i64> = st.rows.iter().filter(|r| r.deleted && live.contains(&r.frag)).map(|r| r.id).collect();
+                        st.index_docs.retain(|id| !dropped.contains(id));
+                        match self.stats_line(st) {
+                            Ok((n, s, _)) => {
                                 st.index_num_docs = n;
                                 s
                             }
@@ -534,6 +691,12 @@ impl C23 {
                 if st.rows.iter().any(|r| r.deleted) {
                     res.tags.push("with_deleted".into());
                 }
+                if st.compacted {
+                    res.tags.push("after_compact".into());
+                }
+                if st.split {
+                    res.tags.push("split_parts".into());
+                }
                 // ranking tests
                 let scores: Vec<f32> = got.iter().filter_map(|g| g.1).collect();
                 if st.has_index && scores.windows(2).any(|w| w[0] < w[1]) {
@@ -590,7 +753,8 @@ impl C23 {
                                 res.tags.push(format!("known:{key}"));
                                 res.failures.push(OracleFailure { what: what.clone(), key: Some(key), line: idx });
                             }
-                        } else if let Some(refs) = &refs {
+                        } else if let Some(refs) = refs.as_ref().filter(|_| !st.split) {
+                            // (with several partitions each one prunes with its own statistics: top-k is approximate)
                             let worst_in = set.iter().filter_map(|i| refs.get(i)).cloned().fold(f64::INFINITY, f64::min);
                             let best_out = want.difference(&set).filter_map(|i| refs.get(i)).cloned().fold(f64::NEG_INFINITY, f64::max);
                             if best_out > worst_in + 1e-4 * (1.0 + best_out.abs()) {
@@ -665,6 +829,20 @@ fn gen_frags(rng: &mut Rng, vocab: &[&str], nf: usize, max_docs: usize) -> Vec<V
     (0..nf).map(|_| (0..rng.range(1, max_docs as u64) as usize).map(|_| gen_doc(rng, vocab)).collect()).collect()
 }
 
+fn gen_long_frags(rng: &mut Rng, vocab: &[&str], nf: usize) -> Vec<Vec<Option<String>>> {
+    (0..nf)
+        .map(|_| {
+            (0..rng.range(1, 3) as usize)
+                .map(|_| {
+                    let n = rng.range(12, 30) as usize;
+                    let ws: Vec<&str> = (0..n).map(|_| vocab[rng.usize(vocab.len())]).collect();
+                    Some(clean(ws.join(" ")))
+                })
+                .collect()
+        })
+        .collect()
+}
+
 fn gen_words(rng: &mut Rng, vocab: &[&str], docs: &[Option<String>], n: usize, phrase: bool) -> String {
     // phrases are mostly cut out of an existing document so that they hit
     if phrase && rng.chance(3, 4) {
@@ -737,7 +915,14 @@ impl Prop for C23 {
             _ => "3",
         };
         let pos = !rng.chance(1, 10);
-        lines.push(format!("cfg lower={} fold={} maxlen={maxlen} pos={}", !rng.chance(1, 5) as u8, rng.chance(1, 2) as u8, pos as u8));
+        let split = rng.chance(1, 3);
+        lines.push(format!(
+            "cfg lower={} fold={} maxlen={maxlen} pos={}{}",
+            !rng.chance(1, 5) as u8,
+            rng.chance(1, 2) as u8,
+            pos as u8,
+            if split { " parts=split" } else { "" }
+        ));
         let mut all: Vec<Option<String>> = vec![];
         for _ in 0..2 {
             if let Some(d) = gen_doc(rng, &vocab) {
@@ -763,11 +948,21 @@ impl Prop for C23 {
         }
         lines.push("index".into());
         queries(rng, &mut lines, &all, 5);
+        let mut compacted = false;
         for _ in 0..rng.range(1, 4) {
-            match rng.below(10) {
+            match rng.below(if compacted { 10 } else { 13 }) {
+                10..=12 => {
+                    // a compaction that has something to remap: delete first
+                    let n = rng.range(1, 3);
+                    let ids: BTreeSet<u64> = (0..n).map(|_| rng.below(all.len() as u64)).collect();
+                    lines.push(format!("delete {}", show_nat_list(ids)));
+                    lines.push("compact".into());
+                    compacted = true;
+                }
                 0..=3 => {
                     let nf = rng.range(1, 2) as usize;
-                    let fr = gen_frags(rng, &vocab, nf, 4);
+                    // split cases get long documents in the later rounds: partitions of very different average length
+                    let fr = if split { gen_long_frags(rng, &vocab, nf) } else { gen_frags(rng, &vocab, nf, 4) };
                     all.extend(fr.iter().flatten().cloned());
                     lines.push(format!("append {}", show_frags(&fr)));
                 }
@@ -782,7 +977,7 @@ impl Prop for C23 {
             queries(rng, &mut lines, &all, 4);
         }
         if malformed {
-            let bad = ["q mx 97", "q mo 9.97", "tok 1234567", "frob", "top 0 mo 97", "q bo 0 0 1 mo 97", "q ph", "delete x", "q mo 97 98", "create 97"];
+            let bad = ["compact x", "q mx 97", "q mo 9.97", "tok 1234567", "frob", "top 0 mo 97", "q bo 0 0 1 mo 97", "q ph", "delete x", "q mo 97 98", "create 97"];
             let at = rng.usize(lines.len() - 1) + 1;
             lines.insert(at, bad[rng.usize(bad.len())].to_string());
         }
@@ -790,6 +985,25 @@ impl Prop for C23 {
     }
 
     fn exec_case(&mut self, lines: &[String]) -> CaseResult {
+        if !self.is_child && lines.iter().any(|l| l.starts_with("cfg ") && l.trim_end().ends_with(" parts=split")) {
+            if self.child.is_none() {
+                self.child = spawn_child();
+            }
+            let r = self.child.as_mut().and_then(|c| delegate(c, lines));
+            return match r {
+                Some(r) => r,
+                None => {
+                    // the child died or answered garbage: report it, start a fresh one for the next case
+                    self.child = None;
+                    CaseResult {
+                        outputs: lines.iter().map(|_| "panic".to_string()).collect(),
+                        failures: vec![OracleFailure { what: "the split-partition child process failed".into(), key: Some("panic".into()), line: 0 }],
+                        tags: vec!["panic".into()],
+                        nontrivial: true,
+                    }
+                }
+            };
+        }
         self.kit.reset_session();
         let mut res = CaseResult::default();
         let mut st = St {
@@ -802,6 +1016,8 @@ impl Prop for C23 {
             indexed_frags: BTreeSet::new(),
             index_docs: vec![],
             index_num_docs: 0,
+            split: false,
+            compacted: false,
         };
         for (i, l) in lines.iter().enumerate() {
             let out = self.exec_line(&mut st, l, i, &mut res);
@@ -816,7 +1032,7 @@ impl Prop for C23 {
     fn rule(&self) -> String {
         "seeded cases: tokenizer config (lower/fold/maxlen/pos), 3-6 word vocabulary out of 16 (ASCII, digits, accented, ß, CJK, dotted I) with case variants and 10 separators, \
          1-3 fragments with NULL/empty/separator-only documents, inverted index, 5 queries (match OR/AND, phrase cut out of a document, boolean up to depth 2, 1/6 with limit k), \
-         then 1-4 rounds of append / delete / optimize / re-index each followed by 4 queries; 1/8 of the cases carry a malformed line; non-trivial = some query has a non-empty expected set"
+         then 1-4 rounds of append / delete / optimize / re-index / delete+compact (once) each followed by 4 queries; 1/3 of the cases run with the partitions kept apart (child process, LANCE_FTS_TARGET_SIZE=0) and append long documents; 1/8 of the cases carry a malformed line; non-trivial = some query has a non-empty expected set"
             .into()
     }
 }
@@ -824,5 +1040,13 @@ impl Prop for C23 {
 fn main() {
     // one indexing worker: the partition layout of a freshly built index is then deterministic
     std::env::set_var("LANCE_FTS_NUM_SHARDS", "1");
-    run_main(C23 { kit: Kit::new(), debug: std::env::var("C23_DEBUG").is_ok() })
+    let is_child = std::env::args().nth(1).as_deref() == Some("--child");
+    let p = C23 { kit: Kit::new(), debug: std::env::var("C23_DEBUG").is_ok(), is_child, child: None };
+    if is_child {
+        child_loop(p);
+    } else {
+        // the parent keeps the default partition target (every build / optimize merges into one partition)
+        std::env::remove_var("LANCE_FTS_TARGET_SIZE");
+        run_main(p)
+    }
 }
